@@ -28,11 +28,13 @@ func verif_fresh(p any) bool
 func verif_istype[T any](x any) bool { _, ok := x.(T); return ok }
 func verif_fst[A, B any](a A, b B) A { return a }
 func verif_snd[A, B any](a A, b B) B { return b }
+func verif_ptr[T any](n int) *T { return nil }
 func verif_same(a, b any) bool
 func verif_raw(a any) int
 func verif_calls(name string) int
 func verif_lastarg(name string, i int) int
 func verif_lastres(name string) int
+func verif_lastresn(name string, k int) int
 `
 
 type clauseInfo struct {
@@ -718,7 +720,9 @@ func (e *Engine) load(rels []string, externFiles []string, extraPkgs []string) e
 			e.pureFuncs[c.CalleeKey] = true
 		}
 	}
-	nonRetaining = func(name string) bool { return e.pureFuncs[name] || (name != "" && e.isRigid(name)) }
+	nonRetaining = func(name string) bool {
+		return e.pureFuncs[name] || (name != "" && (e.isRigid(name) || currentPure[name] || currentPure[shortCallee(name)]))
+	}
 	return nil
 }
 
